@@ -186,7 +186,7 @@ PROFILES = {
     'C11': dict(new=5, relate=7, unrelate=4, delete=2, setattr_id=5, setattr=1, check=6, new_ref=1),
     'C16': dict(new_n=5, relate_n=10, unrelate_n=3, delete=1.2, sort=8, sort_partial=2, relate_overflow=1.5,
                 new=1, relate=1),
-    'C19': dict(new=4, new_args=9, new_kw=4, new_bad=1, idgen=5, relate=2, delete=1, setattr=1, select=1),
+    'C19': dict(new=4, new_args=9, new_kw=4, new_bad=1, idgen=5, relate=2, delete=1, setattr=1, select=1, swap_idgen=0.6),
 }
 
 
@@ -442,7 +442,10 @@ class Gen(object):
             s, t = rng.choice(srcs), rng.choice(tgts)
             op = self.link_op(rng.choice(['relate', 'unrelate']), a, s, t)
             r = rng.random()
-            if r < 0.35:
+            if a['src_phrase'] != a['tgt_phrase'] and not self.sch.reflexive(a) and r < 0.5:
+                # the phrase is right for the other argument order only
+                op['x'], op['y'] = op['y'], op['x']
+            elif r < 0.35:
                 op['rel'] = 99 if rng.random() < 0.5 else 'R0'
             elif r < 0.7:
                 op['phrase'] = rng.choice(['bogus', op['phrase'] + 'x', op['phrase'].upper() or 'x'])
@@ -744,6 +747,11 @@ class Gen(object):
             op['rel'] = st['rel']
         return op
 
+    def op_swap_idgen(self):
+        '''the id generator is a public attribute of the metamodel: replace it in mid-history'''
+        self.nswap = getattr(self, 'nswap', 0) + 1
+        return {'op': 'swap_idgen', 'kind': self.rng.choice(['integer', 'user', 'iter']), 'n': self.nswap}
+
     def op_idgen(self):
         f = weighted(self.rng, [(4, 'peek'), (2, 'next'), (2, 'builtin_next'), (1, 'peek2')])
         return {'op': 'idgen', 'f': f}
@@ -848,6 +856,8 @@ class Gen(object):
                 op = self.op_check()
             elif k == 'idgen':
                 op = self.op_idgen()
+            elif k == 'swap_idgen':
+                op = self.op_swap_idgen()
             elif k == 'hold':
                 op = self.op_hold()
             elif k == 'recheck':
@@ -1096,6 +1106,9 @@ def apply_ref(ref, op, gen_time=False, world=None):
                 raise Skip('generator without peek')
             return ('ret', g.peek())
         return ('ret', g.next())
+    if k == 'swap_idgen':
+        _, ref.idgen = make_idgen(_FakeXtuml, op['kind'], 0)
+        return ('swap', None)
     if k == 'recheck':
         return ('recheck', None)
     if k == 'find_class':
@@ -1251,7 +1264,7 @@ class StoreEngine(Engine):
             'C11': ['check_nonzero_assoc', 'check_nonzero_unique', 'check_zero', 'check_consistent_true',
                     'check_consistent_false'],
             'C16': ['sort_chain_ge3', 'sort_ring_ge2', 'sort_multi_chain', 'sort_empty', 'sort_partial'],
-            'C19': ['new_positional', 'new_keyword', 'F1_unknown_type', 'idgen_peek', 'defaulted_ids'],
+            'C19': ['new_positional', 'new_keyword', 'F1_unknown_type', 'idgen_peek', 'defaulted_ids', 'idgen_swapped'],
         }[prop]
         return [k for k in need if not probes.get(k) and not faults.get(k)]
 
@@ -1580,6 +1593,13 @@ class Exec(object):
             if op['f'] == 'next':
                 return g.next() if hasattr(g, 'next') else next(g)
             return next(g)
+        if k == 'swap_idgen':
+            g, _ = make_idgen(x, op['kind'], 0)
+            m.id_generator = g
+            w.gen = g
+            self.extra['has_peek'] = hasattr(g, 'peek')
+            self.bump(self.probes, 'idgen_swapped')
+            return None
         if k == 'recheck':
             if op['slot'] not in self.holds:
                 raise Skip('no such held result')
